@@ -33,12 +33,36 @@ class _Fact(dict):
         return "<fn>"
 
 
+class _It:
+    """a concrete iterator over finitely many concrete items; a mutable object, shared by the copies of a `&mut` borrow"""
+    __slots__ = ("items",)
+
+    def __init__(self, items):
+        self.items = list(items)
+
+    def __repr__(self):
+        return f"_It({self.items!r})"
+
+
+def is_it(v):
+    return isinstance(v, tuple) and len(v) == 2 and v[0] == "iter" and isinstance(v[1], _It)
+
+
+def _bytes_of(v):
+    """the bytes of a concrete string / byte-string value, else None"""
+    if isinstance(v, str):
+        return v.encode()
+    if isinstance(v, tuple) and v and v[0] == "mem" and isinstance(v[1], (bytes, bytearray)):
+        return bytes(v[1])
+    return None
+
+
 def adt(path, vi, fields=()):
     return ("adt", path, vi, list(fields))
 
 
 STD_VARIANTS = {"core::cmp::Ordering": ["Less", "Equal", "Greater"], "core::option::Option": ["None", "Some"], "core::result::Result": ["Ok", "Err"], "core::num::FpCategory": ["Nan", "Infinite", "Zero", "Subnormal", "Normal"],
-                "core::ops::control_flow::ControlFlow": ["Continue", "Break"]}
+                "core::ops::control_flow::ControlFlow": ["Continue", "Break"], "core::task::poll::Poll": ["Ready", "Pending"]}
 
 
 class Interp:
@@ -112,6 +136,14 @@ class Interp:
                 if isinstance(cv, (bool, int)) and bool(cv) != bool(t.get("expected", True)):
                     raise Unsupported(f"assertion ({t.get('kind')}) fails: the code panics here")
                 bb = t["target"]
+            elif "switch" in t and "cfg" in str(t.get("x") or "") and isinstance(self._try_operand(body, env, t["switch"]), bool):
+                # `if cfg!(debug_assertions) { .. }` (debug_assert!): the tables describe the release build, where the block is
+                # compiled out; a debug assertion does not decide results (and its condition may be outside the fragment)
+                nxt = t["otherwise"]
+                for val, tg in t["targets"]:
+                    if val == 0:
+                        nxt = tg
+                bb = nxt
             elif "switch" in t:
                 v = self.operand(body, env, t["switch"])
                 if isinstance(v, bool):
@@ -214,6 +246,50 @@ class Interp:
         comb = self._combinator(body, f, argv, depth)
         if comb is not NO_VALUE:
             return comb
+        # `.await`, as the compiler spells it (into_future, Pin::new_unchecked, get_context, poll, switch on Ready / Pending): every
+        # future completes at its first poll — an `async fn` of this crate is interpreted when polled, an opaque future's
+        # value is the value its call was given (call_oracle); suspension (`yield`) is therefore never reached
+        if d in ("core::convert::TryFrom::try_from", "core::convert::TryInto::try_into") and len(argv) == 1 and isinstance(argv[0], int) and not isinstance(argv[0], bool) and f.get("substs"):
+            # integer narrowing / widening: value preserving or an error
+            tgt_ = (f["substs"][0] if d.endswith("try_from") else f["substs"][-1]) or {}
+            from . import consteval as _ce
+            if tgt_.get("prim") in _ce.INT_BITS:
+                return adt("core::result::Result", 0, [argv[0]]) if wrap_int(argv[0], tgt_["prim"]) == argv[0] else adt("core::result::Result", 1, [("sym", "TryFromIntError")])
+        if name == "parse" and d.startswith("core::str::<impl str>::parse") and argv and isinstance(argv[0], str) and f.get("substs") and hasattr(self.crate, "resolve_trait_call"):
+            # `s.parse::<T>()` is `<T as FromStr>::from_str(s)`: a local impl is interpreted
+            late_ = self.crate.resolve_trait_call({"trait": "core::str::traits::FromStr", "name": "from_str", "self_ty": f["substs"][-1], "substs": [f["substs"][-1]]})
+            cb_ = self.crate.body(late_["id"]) if late_ else None
+            if cb_ is not None and depth < self.max_depth + 1 and (self.inline is None or self.inline(late_["def"], late_["id"])):
+                return self.run(cb_, [argv[0]], depth + 1)
+        itv = self._iterators(body, f, argv, depth)
+        if itv is not NO_VALUE:
+            return itv
+        if d in ("core::cmp::min", "core::cmp::max", "core::cmp::Ord::min", "core::cmp::Ord::max") and len(argv) == 2 and all(isinstance(x_, int) and not isinstance(x_, bool) for x_ in argv):
+            return min(argv) if name == "min" else max(argv)
+        if name in ("new_uninit", "new_uninit_in") and d.startswith("alloc::boxed::Box"):
+            return ("uninit",)        # `vec![a, b]` / `Box::new(..)` as the compiler spells them: storage filled by the next store
+        if name in ("assume_init", "write") and d.startswith("alloc::boxed::Box") and argv:
+            return argv[-1] if name == "write" else argv[0]
+        if d in ("core::mem::drop", "core::mem::forget"):
+            return ("tuple", [])
+        if d == "core::future::into_future::IntoFuture::into_future" and argv:
+            return argv[0]
+        if d in ("core::pin::Pin::<Ptr>::new_unchecked", "core::pin::Pin::<Ptr>::new", "core::future::get_context") and argv:
+            return argv[0]
+        if d == "core::future::future::Future::poll" and len(argv) == 2:
+            fut = argv[0]
+            if isinstance(fut, tuple) and fut and fut[0] == "closure":
+                cb = self.crate.body(fut[1])
+                if cb is None or cb.kind != "coroutine":
+                    raise Unsupported("poll of an unknown future")
+                if depth >= self.max_depth + 2:
+                    raise Unsupported("await nesting too deep")
+                self._tsubs.append(dict(fut[3]) if len(fut) > 3 else {})
+                try:
+                    return adt("core::task::poll::Poll", 0, [self.run(cb, [fut, argv[1]], depth + 1)])
+                finally:
+                    self._tsubs.pop()
+            return adt("core::task::poll::Poll", 0, [fut])
         rd = (f.get("resolved") or {}).get("def") or ""
         if (d == "core::ops::try_trait::Try::branch" or "Try>::branch" in rd) and argv and is_adt(argv[0]) and argv[0][1] in ("core::option::Option", "core::result::Result"):
             v0 = argv[0]
@@ -279,7 +355,11 @@ class Interp:
             cb = self.crate.body(fv[1])
             if cb is None:
                 raise Unsupported("closure body unavailable")
-            return self.run(cb, [fv] + list(args), depth + 1)
+            self._tsubs.append(dict(fv[3]) if len(fv) > 3 and fv[3] else dict(self._tsubs[-1]) if self._tsubs else {})
+            try:
+                return self.run(cb, [fv] + list(args), depth + 1)
+            finally:
+                self._tsubs.pop()
         if isinstance(fv, tuple) and fv and fv[0] == "fn":
             fact = fv[2] if len(fv) > 2 else {"def": fv[1], "name": fv[1].split("::")[-1]}
             d = fact.get("def", "")
@@ -289,6 +369,186 @@ class Interp:
                         return adt(path, vi, list(args))
             return self.call(body, dict(fact), list(args), depth)
         raise Unsupported("call of an unknown function value")
+
+    def _iterators(self, body, f, argv, depth):
+        """std iterator adaptors over concrete finite sequences (strings, byte strings, arrays): evaluated eagerly, closures
+        applied in iteration order"""
+        d, name = f.get("def", ""), f.get("name", "")
+        OPT_ = "core::option::Option"
+        if not argv:
+            return NO_VALUE
+        a0 = argv[0]
+        # ---- sources
+        if isinstance(a0, str) and d.startswith("core::str::<impl str>::"):
+            if name == "bytes":
+                return ("iter", _It(list(a0.encode())))
+            if name == "chars":
+                return ("iter", _It([ord(ch) for ch in a0]))
+            if name == "char_indices":
+                out_, k_ = [], 0
+                for ch in a0:
+                    out_.append(("tuple", [k_, ord(ch)]))
+                    k_ += len(ch.encode())
+                return ("iter", _It(out_))
+            if name == "as_bytes":
+                return ("mem", a0.encode(), None)
+            if name == "len":
+                return len(a0.encode())
+            if name == "is_empty":
+                return a0 == ""
+            if name == "is_ascii":
+                return a0.isascii()
+            if name in ("split", "rsplit") and len(argv) == 2 and (isinstance(argv[1], str) or (isinstance(argv[1], int) and not isinstance(argv[1], bool))):
+                sep_ = argv[1] if isinstance(argv[1], str) else chr(argv[1])
+                if sep_:
+                    parts_ = a0.split(sep_)
+                    return ("iter", _It(parts_ if name == "split" else parts_[::-1]))
+            if name in ("starts_with", "ends_with", "contains") and len(argv) == 2 and (isinstance(argv[1], str) or (isinstance(argv[1], int) and not isinstance(argv[1], bool))):
+                pat_ = argv[1] if isinstance(argv[1], str) else chr(argv[1])
+                return a0.startswith(pat_) if name == "starts_with" else a0.endswith(pat_) if name == "ends_with" else pat_ in a0
+            if name in ("trim_end_matches", "trim_start_matches", "trim_matches", "strip_prefix", "strip_suffix") and len(argv) == 2 \
+                    and (isinstance(argv[1], str) or (isinstance(argv[1], int) and not isinstance(argv[1], bool))):
+                pat_ = argv[1] if isinstance(argv[1], str) else chr(argv[1])
+                if pat_:
+                    s_ = a0
+                    if name == "strip_prefix":
+                        return adt(OPT_, 1, [s_[len(pat_):]]) if s_.startswith(pat_) else adt(OPT_, 0, [])
+                    if name == "strip_suffix":
+                        return adt(OPT_, 1, [s_[:-len(pat_)]]) if s_.endswith(pat_) else adt(OPT_, 0, [])
+                    if name in ("trim_start_matches", "trim_matches"):
+                        while s_.startswith(pat_):
+                            s_ = s_[len(pat_):]
+                    if name in ("trim_end_matches", "trim_matches"):
+                        while s_.endswith(pat_):
+                            s_ = s_[:-len(pat_)]
+                    return s_
+            if name in ("to_string", "to_owned", "as_str", "to_lowercase", "to_uppercase", "to_ascii_lowercase", "to_ascii_uppercase") and len(argv) == 1:
+                return {"to_lowercase": a0.lower(), "to_uppercase": a0.upper(), "to_ascii_lowercase": "".join(ch.lower() if ch.isascii() else ch for ch in a0),
+                        "to_ascii_uppercase": "".join(ch.upper() if ch.isascii() else ch for ch in a0)}.get(name, a0)
+            if name in ("trim", "trim_start", "trim_end") and len(argv) == 1:
+                ws_ = " \t\n\r\x0b\x0c\x85\xa0\u1680\u2000\u2001\u2002\u2003\u2004\u2005\u2006\u2007\u2008\u2009\u200a\u2028\u2029\u202f\u205f\u3000"
+                return a0.strip(ws_) if name == "trim" else a0.lstrip(ws_) if name == "trim_start" else a0.rstrip(ws_)
+        if isinstance(a0, str) and len(argv) == 1 and (d in ("alloc::string::ToString::to_string", "alloc::borrow::ToOwned::to_owned", "alloc::string::String::as_str", "alloc::string::String::into_boxed_str")
+                                                    or (name in ("as_str", "len", "is_empty", "as_bytes", "into_bytes") and d.startswith("alloc::string::String::"))):
+            return {"len": len(a0.encode()), "is_empty": a0 == "", "as_bytes": ("mem", a0.encode(), None), "into_bytes": ("mem", a0.encode(), None)}.get(name, a0)
+        b0 = _bytes_of(a0) if not isinstance(a0, str) else None
+        if b0 is not None and d.startswith("core::slice::<impl [T]>::"):
+            if name == "iter":
+                return ("iter", _It(list(b0)))
+            if name == "len":
+                return len(b0)
+            if name == "is_empty":
+                return not b0
+            if name == "is_ascii":
+                return all(x < 128 for x in b0)
+            if name in ("first", "last"):
+                return adt(OPT_, 1, [b0[0 if name == "first" else -1]]) if b0 else adt(OPT_, 0, [])
+            if name == "contains" and len(argv) == 2 and isinstance(argv[1], int):
+                return argv[1] in b0
+        if isinstance(a0, tuple) and a0 and a0[0] == "array" and name in ("iter", "into_iter") and not contains_opaque(a0):
+            return ("iter", _It(list(a0[1])))
+        if name == "into_iter" and d == "core::iter::traits::collect::IntoIterator::into_iter":
+            if is_it(a0):
+                return a0
+            if b0 is not None:
+                return ("iter", _It(list(b0)))
+        if not is_it(a0):
+            return NO_VALUE
+        # ---- adaptors and consumers on a concrete iterator
+        it = a0[1]
+        if not (d.startswith("core::iter::") or d.startswith("core::str::") or d.startswith("core::slice::") or d.startswith("core::iter::traits::")):
+            return NO_VALUE
+
+        def call_(fn, *args):
+            return self.apply(body, fn, list(args), depth)
+
+        def truthy(v):
+            if not isinstance(v, bool):
+                raise Unsupported("iterator predicate did not evaluate to a bool")
+            return v
+        if name == "next" and len(argv) == 1:
+            return adt(OPT_, 1, [it.items.pop(0)]) if it.items else adt(OPT_, 0, [])
+        if name == "next_back" and len(argv) == 1:
+            return adt(OPT_, 1, [it.items.pop()]) if it.items else adt(OPT_, 0, [])
+        if name in ("by_ref", "fuse", "copied", "cloned", "into_iter", "peekable") and len(argv) == 1:
+            return a0
+        if name == "enumerate" and len(argv) == 1:
+            return ("iter", _It([("tuple", [k_, x_]) for k_, x_ in enumerate(it.items)]))
+        if name == "rev" and len(argv) == 1:
+            return ("iter", _It(it.items[::-1]))
+        if name in ("skip", "take") and len(argv) == 2 and isinstance(argv[1], int) and not isinstance(argv[1], bool):
+            return ("iter", _It(it.items[argv[1]:] if name == "skip" else it.items[:argv[1]]))
+        if name == "count" and len(argv) == 1:
+            n_ = len(it.items)
+            it.items = []
+            return n_
+        if name == "last" and len(argv) == 1:
+            r_ = adt(OPT_, 1, [it.items[-1]]) if it.items else adt(OPT_, 0, [])
+            it.items = []
+            return r_
+        if name == "nth" and len(argv) == 2 and isinstance(argv[1], int):
+            k_ = argv[1]
+            r_ = adt(OPT_, 1, [it.items[k_]]) if k_ < len(it.items) else adt(OPT_, 0, [])
+            it.items = it.items[k_ + 1:]
+            return r_
+        if len(argv) == 2 and isinstance(argv[1], tuple) and argv[1] and argv[1][0] in ("closure", "fn"):
+            fn = argv[1]
+            if name == "map":
+                return ("iter", _It([call_(fn, x_) for x_ in it.items]))
+            if name == "filter":
+                return ("iter", _It([x_ for x_ in it.items if truthy(call_(fn, x_))]))
+            if name in ("take_while", "skip_while", "map_while"):
+                out_, rest_ = [], list(it.items)
+                while rest_:
+                    r_ = call_(fn, rest_[0])
+                    if name == "map_while":
+                        if not (is_adt(r_) and r_[1] == OPT_):
+                            raise Unsupported("map_while closure result")
+                        if r_[2] == 0:
+                            break
+                        out_.append(r_[3][0])
+                    elif not truthy(r_):
+                        break
+                    else:
+                        out_.append(rest_[0])
+                    rest_.pop(0)
+                return ("iter", _It(rest_ if name == "skip_while" else out_))
+            if name in ("all", "any"):
+                while it.items:
+                    x_ = it.items.pop(0)
+                    if truthy(call_(fn, x_)) != (name == "all"):
+                        return name == "any"
+                return name == "all"
+            if name == "find":
+                while it.items:
+                    x_ = it.items.pop(0)
+                    if truthy(call_(fn, x_)):
+                        return adt(OPT_, 1, [x_])
+                return adt(OPT_, 0, [])
+            if name in ("position", "rposition"):
+                seq_ = list(enumerate(it.items))
+                for k_, x_ in (seq_ if name == "position" else seq_[::-1]):
+                    if truthy(call_(fn, x_)):
+                        return adt(OPT_, 1, [k_])
+                return adt(OPT_, 0, [])
+            if name == "find_map":
+                while it.items:
+                    r_ = call_(fn, it.items.pop(0))
+                    if not (is_adt(r_) and r_[1] == OPT_):
+                        raise Unsupported("find_map closure result")
+                    if r_[2] == 1:
+                        return r_
+                return adt(OPT_, 0, [])
+            if name == "for_each":
+                while it.items:
+                    call_(fn, it.items.pop(0))
+                return ("tuple", [])
+        if name == "fold" and len(argv) == 3 and isinstance(argv[2], tuple) and argv[2] and argv[2][0] in ("closure", "fn"):
+            acc_ = argv[1]
+            while it.items:
+                acc_ = call_(argv[2], acc_, it.items.pop(0))
+            return acc_
+        return NO_VALUE
 
     def _combinator(self, body, f, argv, depth):
         """std Option / Result / bool combinators on concrete receivers (semantics table shared with vf.lower)"""
@@ -364,7 +624,29 @@ class Interp:
         if not proj:
             env[place["l"]] = val
             return
-        raise Unsupported("assignment through projection")
+        # field store into a value the local owns (`x.a.b = v`, also through a Box it owns): functional update.  A store through a
+        # reference would have to update the referent, which this value model (references are transparent copies) cannot do
+        lty = body.local_ty(place["l"]) if hasattr(body, "local_ty") else None
+        if place["l"] in env and env[place["l"]] == ("uninit",):
+            env[place["l"]] = val
+            return
+        if lty is None or "ref" in lty or "ptr" in lty or place["l"] not in env or not all(isinstance(e, dict) and "f" in e for e in proj):
+            raise Unsupported("assignment through projection")
+
+        def upd(v, path):
+            if not path or v == ("uninit",):
+                return val
+            k = path[0]["f"]
+            if is_adt(v) and k < len(v[3]):
+                fs = list(v[3])
+                fs[k] = upd(fs[k], path[1:])
+                return ("adt", v[1], v[2], fs)
+            if isinstance(v, tuple) and v and v[0] == "tuple" and k < len(v[1]):
+                fs = list(v[1])
+                fs[k] = upd(fs[k], path[1:])
+                return ("tuple", fs)
+            raise Unsupported("assignment through projection of " + repr(v)[:40])
+        env[place["l"]] = upd(env[place["l"]], proj)
 
     def place(self, body, env, p):
         l = place_local(p)
@@ -407,6 +689,12 @@ class Interp:
             raise Unsupported("projection " + str(e))
         return v
 
+    def _try_operand(self, body, env, op):
+        try:
+            return self.operand(body, env, op)
+        except Unsupported:
+            return None
+
     def operand(self, body, env, op):
         c = op.get("c")
         if c is not None:
@@ -426,14 +714,19 @@ class Interp:
                 return self.promoted(body, c["promoted"])
             if c.get("zst"):
                 return ("tuple", [])
+            if "tyconst" in c:
+                return ("tyconst", c["tyconst"])      # a const generic parameter
             for k in ("static", "item"):
                 if k in c:
                     cst = self.crate.consts.get(c[k]) if hasattr(self.crate, "consts") else None
                     if cst and "int" in cst:
                         return cst["int"]
-                    if cst and (cst.get("ty") or {}).get("adt"):
+                    if (cst and (cst.get("ty") or {}).get("adt")) or cst is None:
+                        # (also an associated const, `Self::MAX`, which is not in the table of free const items)
                         # a structured constant (`const R: RangeInclusive<i64> = -L..=L`): evaluate its initialiser
                         v_ = self._const_body_value(c[k])
+                        if v_ is NO_VALUE and c.get("item_id"):
+                            v_ = self._const_body_value(c["item_id"])
                         if v_ is not NO_VALUE:
                             return v_
                     if cst and "mem" in cst:
@@ -446,7 +739,7 @@ class Interp:
         cache = self.__dict__.setdefault("_const_cache", {})
         if path not in cache:
             cache[path] = NO_VALUE
-            cb = [x for x in getattr(self.crate, "bodies", []) if x.kind in ("const", "static") and x.path == path]
+            cb = [x for x in getattr(self.crate, "bodies", []) if x.kind in ("const", "static") and (x.path == path or x.id == path)]
             if len(cb) == 1:
                 try:
                     cache[path] = self.run(cb[0], [], depth=1)
@@ -473,6 +766,14 @@ class Interp:
             v = self.operand(body, env, r["cast"])
             if r.get("kind") == "IntToInt" and isinstance(v, int) and not isinstance(v, bool):
                 return wrap_int(v, (r.get("to") or {}).get("prim"))
+            if r.get("kind") == "FloatToFloat" and isinstance(v, float) and (r.get("to") or {}).get("prim") == "f32":
+                import struct as _st
+                if v != v or v in (float("inf"), float("-inf")):
+                    return v
+                try:
+                    return _st.unpack("f", _st.pack("f", v))[0]
+                except OverflowError:
+                    return float("inf") if v > 0 else float("-inf")
             return v
         if "discr" in r:
             v = self.place(body, env, r["discr"])
@@ -492,7 +793,8 @@ class Interp:
             if r["agg"] == "tuple":
                 return ("tuple", ops)
             if r["agg"] in ("closure", "coroutine"):
-                return ("closure", r["id"], ops)
+                # (a closure / coroutine shares its parent's type parameters: it carries the instantiation it was created under)
+                return ("closure", r["id"], ops, dict(self._tsubs[-1]) if self._tsubs and self._tsubs[-1] else {})
             if r["agg"] == "array":
                 return ("array", ops)
             raise Unsupported("aggregate " + r["agg"])
